@@ -254,7 +254,7 @@ func Run(cfg fw.Config, rec *fw.Rec) {
 	}
 	rec.Rule = "two-node machines whose action and guards are hostile programs over the permanent keys (delete, overwrite, keep-only, copy-over, push, return {} / a fresh object / null / a number, fail, reject) run from states with 0-3 permanent bindings (scalar, nested, array, null, false values) and 0-3 ordinary ones, native (two failure modes; and a variant that mutates the bindings it is given in place, as core's Bindings.Remove / Extend / DeleteExcept do) and ECMAScript; plus random multi-node machines; for every stride the permanent bindings present before must be present and equal after, unless the node's action returned null (recorded, not judged); non-trivial = stride checked with >= 1 permanent binding; distinct by canonical (spec,state)"
 	rec.Required = []string{"strides_with_permanent_checked", "after_failing_action", "after_completed_action", "guard_rejected_then_next_branch", "guard_accepted", "render_ecma", "render_native", "render_native-inplace", "structured_permanent_value", "unjudged_action_returned_null"}
-	n := cfg.Pick(60000, 800000)
+	n := cfg.Pick(60000, 3000000)
 	fw.Parallel(cfg.Workers, n, func(w, i int) {
 		r := cfg.Rng("c18", i)
 		u := &gen.Uid{Prefix: fmt.Sprintf("p%d_", i)}
